@@ -4,8 +4,8 @@ import sys,os,json,subprocess,shutil,glob
 prop,let,wt=sys.argv[1:4]
 extra=sys.argv[4:]
 import os as _os
-sub='_seed6' if _os.path.isdir(wt+'/_seed6') else '_seed5' if _os.path.isdir(wt+'/_seed5') else '_seed4' if _os.path.isdir(wt+'/_seed4') else '_seed3' if _os.path.isdir(wt+'/_seed3') else ('_seed2' if _os.path.isdir(wt+'/_seed2') else '_seed')
-src={'c':'a','d':'b','e':'a','f':'b','g':'c','h':'a','i':'b','j':'a','k':'b','l':'a','m':'b'}.get(let,let) if sub!='_seed' else let
+sub='_seed7' if _os.path.isdir(wt+'/_seed7') else '_seed6' if _os.path.isdir(wt+'/_seed6') else '_seed5' if _os.path.isdir(wt+'/_seed5') else '_seed4' if _os.path.isdir(wt+'/_seed4') else '_seed3' if _os.path.isdir(wt+'/_seed3') else ('_seed2' if _os.path.isdir(wt+'/_seed2') else '_seed')
+src={'c':'a','d':'b','e':'a','f':'b','g':'c','h':'a','i':'b','j':'a','k':'b','l':'a','m':'b','n':'a','o':'b'}.get(let,let) if sub!='_seed' else let
 sd='%s/%s/%s'%(wt,sub,src)
 out=subprocess.run(['python3','/verif/tools/confirm_seed.py',wt,sd]+extra,capture_output=True,text=True)
 print(out.stdout[-2500:],out.stderr[-500:])
